@@ -474,6 +474,16 @@ def population(tier):
                     ("nth", "child", 2, 0, ":nth-child(2n)"), ("nth", "child", 0, 1, ":first-child")]
     for a, b in itertools.combinations(nth_variants, 2):
         batches.append([[[[("type", "a"), a]]], [[[("type", "a"), b]]]])
+    # a child-combinator selector whose right side needs attributes next to a descendant-combinator selector whose
+    # right side does not (the VM bails out for attributes in the jumps and must still run the hereditary jumps)
+    attrish = [[("class", "a")], [("id", "a")], [("has", "x")], [("attr", "x", "=", "a", None)]]
+    plain = [[("type", "b")], [("type", "p")], [("univ",)], [("nth", "child", 0, 1, ":first-child")]]
+    for l, c1, c2 in itertools.product([[("type", "a")], [("type", "p")]], attrish, plain):
+        batches.append([[[l, (">", c1)]], [[l, (" ", c2)]]])
+        batches.append([[[l, (" ", c1)]], [[l, (">", c2)]]])
+    for c1, c2 in itertools.product(attrish[:2], plain[:2]):
+        batches.append([[[[("type", "a")], (" ", c1), (">", c2)]]])
+        batches.append([[[[("type", "a")], (">", c1), (" ", c2)]], [[[("type", "a")], (" ", c2)]]])
     # several selectors in one Ast (prefix sharing; result must not depend on the others)
     for a, b in itertools.product(few[:5], few[:5]):
         batches.append([[[a, (">", b)]], [[a, (" ", b)]], [[a]]])
